@@ -115,7 +115,28 @@ def plan_c16(seed: int) -> dict:
     _add_poison(plan, rng)
     if files["out.tsv"]["initial"] == "absent" and rng.random() < 0.25:
         plan["phases"][0]["sessions"][0]["continue_file"] = False
+    # one of the concurrent calls fails at a file operation and its caller carries on: the
+    # other calls must neither block for ever nor lose or duplicate their rows
+    _add_soft_faults(plan, seed, prob=0.3, last_too=True)
     return plan
+
+
+def _add_soft_faults(plan, seed, prob=0.6, last_too=False):
+    """Single-call faults: in sessions before the last one, an evaluate / make_statistic call fails
+    at its n-th file open (an interrupt delivered to that call only, or EMFILE); the caller
+    catches it and the interpreter - with its lock objects - keeps running.  Own generator, so
+    that the rest of the plan of a seed is what it was before this fault kind existed."""
+    rng = random.Random((seed << 8) ^ 0x50F7)
+    if plan["knobs"].get("mode") not in ("threads", "mixed") or rng.random() >= prob:
+        return
+    for ph in (plan["phases"] if last_too else plan["phases"][:-1]):
+        for sess in ph["sessions"]:
+            if sess.get("isolated"):
+                continue
+            for ops in sess["tasks"]:
+                for op in ops:
+                    if op[0] in ("eval", "stat") and rng.random() < 0.3:
+                        op.append({"soft": [rng.randint(1, 3 if op[0] == "eval" else 1), rng.choice(["kbdint", "emfile"])]})
 
 
 def plan_c17(seed: int, *, faults=True) -> dict:
@@ -220,6 +241,7 @@ def plan_c17(seed: int, *, faults=True) -> dict:
     }
     _alt_phases(plan, rng)
     _add_poison(plan, rng)
+    _add_soft_faults(plan, seed)
     if "bad" not in plan["inputs"]:
         # a restart may also happen under `python -O` (assert statements stripped).  Not combined
         # with malformed subjects, whose rejection by the library is itself an assert.
